@@ -186,6 +186,62 @@ def crash(cx, functional="rootfinder", kind="nn", debug=False):
         set_debug_mode(prev_debug)
 
 
+def debug_contexts(cx, functional="quad", kind="editable"):
+    """enable_debug()/disable_debug() blocks, nested up to three deep in every combination, entered with either previous
+    value of the flag, around a functional call that completes or whose user function raises at an evaluation chosen by the
+    explorer: on leaving each block the flag has the value it had on entering THAT block (last-in-first-out), and inside the
+    block it has the requested value"""
+    import itertools
+    import warnings
+    from xitorch.debug.modes import enable_debug, disable_debug
+    seqs = [q for n in (1, 2, 3) for q in itertools.product("ed", repeat=n)]
+    prev0 = is_debug_enabled()
+    try:
+        prev = bool(cx.choose(2, "previous_flag"))
+        seq = seqs[cx.choose(len(seqs), "nesting")]
+        set_debug_mode(prev)
+        ctr = Counter()
+        ctr.k = [None, 1, 2][cx.choose(3, "crash_at")]
+        obj = _make(kind, cx, ctr)
+        before = snapshot(obj)
+        ok_inside, ok_after = [], []
+
+        def enter(level):
+            if level == len(seq):
+                # the functional runs in non-debug blocks only (debug mode prints through float formatting: real-only, see
+                # aux_real_only); in a debug block the body just raises or not
+                if not is_debug_enabled():
+                    with warnings.catch_warnings():
+                        warnings.simplefilter("ignore")
+                        _use(functional, obj, cx)
+                elif ctr.k is not None:
+                    raise Boom()
+                return
+            outer = is_debug_enabled()
+            want = seq[level] == "e"
+            try:
+                with (enable_debug() if want else disable_debug()):
+                    ok_inside.append(is_debug_enabled() == want)
+                    enter(level + 1)
+                    ok_inside.append(is_debug_enabled() == want)
+            finally:
+                ok_after.append(is_debug_enabled() == outer)
+        raised = False
+        try:
+            enter(0)
+        except Boom:
+            raised = True
+        tag = "prev=%s nesting=%s crash=%s raised=%s" % (prev, "".join(seq), ctr.k, raised)
+        cx.claim_true("inside a block the flag has the requested value", all(ok_inside), detail=tag)
+        cx.claim_true("leaving a block restores the value the flag had on entering it (LIFO)", all(ok_after) and
+                      len(ok_after) == len(seq), detail=tag + " " + str(ok_after))
+        cx.claim_true("after all blocks the flag has its previous value", is_debug_enabled() == prev, detail=tag)
+        cx.claim_true("object state unchanged", snapshot(obj) == before)
+        return tag
+    finally:
+        set_debug_mode(prev0)
+
+
 class Op(LinearOperator):
     def __init__(self, ctr, m):
         super().__init__(shape=m.shape, dtype=m.dtype, device=m.device)
@@ -307,6 +363,8 @@ def configs(tier):
         opts={"real_only": True, "validate": 6})
     for n in ((3, 4, 5) if tier == "quick" else (3, 4, 5, 6)):
         add("unique_params/n%d" % n, unique_params, n=n, opts={"max_paths": 1000, "max_decisions": 400, "budget_s": 900})
+    add("debug_contexts/quad/editable", debug_contexts, functional="quad", kind="editable", opts={"max_paths": 400})
+    add("debug_contexts/rootfinder/nn", debug_contexts, functional="rootfinder", kind="nn", opts={"max_paths": 400})
     add("crash_linop/custom_exactsolve", crash_linop, method="custom_exactsolve")
     add("crash_linop/cg", crash_linop, method="cg")
     return cfgs
